@@ -144,10 +144,10 @@ Fixpoint starts_with (p x : str) : bool :=
   | _, _ => false
   end.
 
-Definition alias_entry := ((str * str) * str)%type.
+Definition alias_entry := ((str * str) * list str)%type.
 Definition flush (ns : str) (cur : option (str * list str)) (acc : list alias_entry) : list alias_entry :=
   match cur with
-  | Some (name, body) => ((ns, name), concat (rev body)) :: acc
+  | Some (name, body) => ((ns, name), rev body) :: acc
   | None => acc
   end.
 (** [cur] = (alias name, reversed chunks of its definition) *)
@@ -170,7 +170,28 @@ Fixpoint segment (l : list str) (ns : str) (cur : option (str * list str)) (acc 
 Definition aliases (ops : list wop) : list alias_entry := segment (strip_jsdoc false (flat_map chunk_of ops)) [] None [].
 
 Definition key_eqb (a b : str * str) : bool := str_eqb (fst a) (fst b) && str_eqb (snd a) (snd b).
-Fixpoint alias_lookup (key : str * str) (l : list alias_entry) : option str :=
+(** two definitions are equal when their texts are, or when both are unions of names (an interface is printed as the
+    union of its implementers, in the declaration order of the route) with the same members *)
+Definition sep_chunk (c : str) : bool := str_eqb c (s " = ") || str_eqb c (s " | ") || str_eqb c (s ";" ++ nl).
+Definition union_like (body : list str) : bool :=
+  forallb (fun c => sep_chunk c || negb (existsb (fun ch => N.eqb ch 32 || N.eqb ch 10) c)) body.
+Definition members_of (body : list str) : list str := filter (fun c => negb (sep_chunk c)) body.
+Definition count_str (x : str) (l : list str) : nat := length (filter (str_eqb x) l).
+Definition perm_eqb (a b : list str) : bool :=
+  Nat.eqb (length a) (length b) && forallb (fun x => Nat.eqb (count_str x a) (count_str x b)) a.
+(** the lines of a text (an object type is printed one field per line; the order of fields is immaterial) *)
+Fixpoint lines_acc (x cur : str) : list str :=
+  match x with
+  | [] => [rev cur]
+  | c :: r => if N.eqb c 10 then rev cur :: lines_acc r [] else lines_acc r (c :: cur)
+  end.
+Definition lines_of (x : str) : list str := lines_acc x [].
+Definition body_eqb (a b : list str) : bool :=
+  str_eqb (concat a) (concat b)
+  || (union_like a && union_like b && perm_eqb (members_of a) (members_of b))
+  || perm_eqb (lines_of (concat a)) (lines_of (concat b)).
+
+Fixpoint alias_lookup (key : str * str) (l : list alias_entry) : option (list str) :=
   match l with [] => None | (k', v) :: r => if key_eqb key k' then Some v else alias_lookup key r end.
 Definition meta_names : list str := map mt_name meta_types.
 (** lenient: introspection types are not compared, nor a built-in scalar that one file does not export *)
@@ -179,7 +200,7 @@ Definition alias_skipped (strict : bool) (a1 a2 : list alias_entry) (key : str *
   (mem_str (snd key) meta_names
    || (is_builtin_scalar (snd key) && (match alias_lookup key a1, alias_lookup key a2 with Some _, Some _ => false | _, _ => true end))).
 Definition aliases_agree (strict : bool) (a1 a2 : list alias_entry) : bool :=
-  forallb (fun key => alias_skipped strict a1 a2 key || option_eqb str_eqb (alias_lookup key a1) (alias_lookup key a2))
+  forallb (fun key => alias_skipped strict a1 a2 key || option_eqb body_eqb (alias_lookup key a1) (alias_lookup key a2))
           (map fst a1 ++ map fst a2).
 
 (* ------------------------------------------------------------------------------------------ *)
